@@ -9,12 +9,20 @@ Local Open Scope list_scope.
 
 (* local variables of a generated checker: pith variables __beartype_pith_<n> and the
    temporaries IsAttr validators create (named by text in the real code) *)
-Inductive var := Pith (n : nat) | Tmp (s : string).
+Inductive var := Pith (n : nat) | Tmp (n : nat) (path : list string).
+(* Tmp n [a1; ...; ak] stands for the name "__beartype_pith_<n>_isattr_<a1>_..._isattr_<ak>" *)
+
+Fixpoint path_eqb (a b : list string) : bool :=
+  match a, b with
+  | [], [] => true
+  | x :: a', y :: b' => String.eqb x y && path_eqb a' b'
+  | _, _ => false
+  end.
 
 Definition var_eqb (a b : var) : bool :=
   match a, b with
   | Pith n, Pith m => Nat.eqb n m
-  | Tmp s, Tmp t => String.eqb s t
+  | Tmp n p, Tmp m q => Nat.eqb n m && path_eqb p q
   | _, _ => false
   end.
 
@@ -32,6 +40,7 @@ Inductive expr :=
 | EFirst (e : expr)                       (* next(iter(e)) *)
 | EFirstValue (e : expr)                  (* next(iter(e.values())) *)
 | EEq (a b : expr)
+| EIs (a b : expr)                        (* a is b *)
 | ENot (e : expr)
 | EAnd (a b : expr)
 | EOr (a b : expr)
@@ -146,6 +155,15 @@ Section Eval.
         | (Ok va, s1) =>
             match eval b s1 with
             | (Ok vb, s2) => (Ok (VBool (py_eq va vb)), log (TEq va vb) s2)
+            | (Exc x, s2) => (Exc x, s2)
+            end
+        | (Exc x, s1) => (Exc x, s1)
+        end
+    | EIs a b =>
+        match eval a s with
+        | (Ok va, s1) =>
+            match eval b s1 with
+            | (Ok vb, s2) => (Ok (VBool (val_same va vb)), s2)
             | (Exc x, s2) => (Exc x, s2)
             end
         | (Exc x, s1) => (Exc x, s1)
